@@ -10,8 +10,11 @@ import Gzx.Proofs.QRSegments
 import Gzx.Proofs.QRInterleave
 import Gzx.Proofs.QRTolerance
 import Gzx.Proofs.QRMatrixRead
+import Gzx.Proofs.QRCompBlocks
+import Gzx.Proofs.QRCompStream
+import Gzx.Properties.C15
 namespace Gzx.Properties.C01
-open Gzx Gzx.QRDec Gzx.QRPack Gzx.ECI
+open Gzx Gzx.QRDec Gzx.QRPack Gzx.ECI Gzx.QRComp
 
 /-! ## character-count widths: the three version classes 1-9 | 10-26 | 27-40 -/
 
@@ -316,5 +319,313 @@ theorem qr_roundtrip_numeric_partial (T : Tables) (rs : List Nat → Nat → Res
   · unfold parse
     rw [h_stream]
     exact parse_numeric_stream T.eci v.num hint ds hd hlen tail ht
+
+/-! ## the composed round trip, in full: reference encoder (ISO/IEC 18004, `Gzx.QRRef`) → decoder model
+
+No layer hypotheses.  The Reed-Solomon decoder is the C04 model `Gzx.RS.decode` over `Gzx.GF.qrCode256`
+(`QRComp.rsQR`), the tables are any tables conforming to the standard (`QRComp.TablesConform T`, decidable,
+discharged for the tables regenerated from /repo by `Obligations.C01.tables_conform`), the symbol is the
+reference symbol of C07 (`QRRef.refMatrix`, which the `c07` oracle compares with the library's matrices). -/
+
+/-- the reference symbol for a payload bit string (mode indicator, count, data — before termination):
+    terminator + padding, block split + RS parity + interleaving, placement + masking + function patterns -/
+def refSymbol (v : Nat) (ec : QRRef.EC) (mask : Nat) (bits : List Bool) : Matrix :=
+  matrixOf (QRRef.refMatrix v ec mask
+    (QRRef.finalCodewords v ec (QRRef.terminate (QRRef.dataCodewords v ec) bits)))
+
+/-- `qr_roundtrip_bits` — the composition for an arbitrary payload: for every version 1..40, level, mask 0..7
+    and every payload that fits the data capacity, `Decoder.Decode` on the reference symbol succeeds on the
+    first attempt (not mirrored) and returns whatever the bit-stream parser makes of the payload followed by
+    a terminated tail, the level, the version and exactly the data codewords that were written. -/
+theorem qr_roundtrip_bits (T : Tables) (hT : TablesConform T) (hint : Hint) (v : Nat) (h1 : 1 ≤ v) (h40 : v ≤ 40)
+    (ec : QRRef.EC) (mask : Nat) (hm : mask < 8) (bits : List Bool)
+    (hfit : bits.length ≤ 8 * QRRef.dataCodewords v ec) (parsed : Parsed)
+    (hparse : ∀ tail, Terminated tail → parseStream T.eci (bits ++ tail) v hint = .ok parsed) :
+    decode T rsQR hint (refSymbol v ec mask bits) =
+      .ok ⟨parsed, toDecEC ec, v, QRRef.terminate (QRRef.dataCodewords v ec) bits, false⟩ := by
+  unfold refSymbol
+  generalize hdata : QRRef.terminate (QRRef.dataCodewords v ec) bits = data
+  have hd : data.length = QRRef.dataCodewords v ec := by
+    rw [← hdata]; exact QRRef.terminate_length _ _ hfit
+  have hb : ∀ x ∈ data, x < 256 := by rw [← hdata]; exact terminate_lt _ _
+  have hl := Gzx.Properties.C07.final_codewords_length v h1 h40 ec data hd
+  have hcb := QRRef.finalCodewords_lt v ec data hb
+  obtain ⟨s, l, q, hs, hq, h255, hlens, hpar, eb, heb, hec, hshape0, htot0⟩ :=
+    refBlocks_structure v h1 h40 ec data hd
+  generalize hshort : (refBlocks v ec data).take s = short
+  generalize hlong : (refBlocks v ec data).drop s = long
+  have hsplit : refBlocks v ec data = short ++ long := by
+    rw [← hshort, ← hlong]; exact (List.take_append_drop _ _).symm
+  have w : ShortLong q (QRRef.ecPerBlock v ec) short long := by
+    rw [← hshort, ← hlong]; exact shortLong_of_lengths _ s l q _ hs hlens hpar
+  have hshape : blockShapes eb = (short ++ long).map (fun b => (b.1.length, QRRef.ecPerBlock v ec + b.1.length)) := by
+    rw [hshape0, ← hlens, ← hsplit, List.map_map]; rfl
+  have htot : (refVersion v).totalCodewords = (QRDec.interleave (short ++ long)).length := by
+    rw [← hsplit]; exact htot0
+  have hcw : QRRef.finalCodewords v ec data = QRDec.interleave (short ++ long) := by
+    rw [finalCodewords_eq_interleave, hsplit]
+  have hdim : ¬ ((sym v ec mask (QRRef.finalCodewords v ec data)).dim < 21 ∨
+      (sym v ec mask (QRRef.finalCodewords v ec data)).dim % 4 ≠ 1) := by
+    rw [matrixOf_dim]; omega
+  have hplace := readCodewords_ref v h1 h40 ec mask _ hl hcb T hT
+  have := qr_roundtrip_partial T rsQR hint (sym v ec mask (QRRef.finalCodewords v ec data)) hdim (refVersion v) _
+    (readVersion_ref v h1 h40 ec mask _ T hT) (toDecEC ec, mask) _ (readFormat_ref v h1 h40 ec mask _ T hT hm)
+    (QRRef.finalCodewords v ec data) _ (Prod.ext hplace rfl)
+    ((short ++ long).map (fun b => (b.1.length, b.1 ++ b.2)))
+    (by rw [hcw]; exact QRDec.interleave_deinterleave w (refVersion v) (toDecEC ec) eb heb hec hshape htot)
+    data ?_ parsed ?_
+  · exact this
+  · have hflat : (short ++ long).flatMap (·.1) = data := by
+      rw [← hsplit]; exact refBlocks_data v h1 h40 ec data hd
+    rw [← hflat]
+    apply correctBlocks_map rsQR (short ++ long) (short ++ long) rfl
+    intro p hp
+    have hpp : p.1 = p.2 := by
+      obtain ⟨i, hi⟩ := List.getElem?_of_mem hp
+      rw [List.getElem?_zip_eq_some] at hi
+      exact Option.some.inj (hi.1.symm.trans hi.2)
+    rw [← hpp]
+    refine ⟨rfl, ?_⟩
+    have hmem : p.1 ∈ refBlocks v ec data := by rw [hsplit]; exact (List.of_mem_zip hp).1
+    obtain ⟨hpar, hne, hbytes, hecm⟩ := refBlocks_mem v h1 h40 ec data hd hb p.1 hmem
+    have hlen : (p.1.1 ++ p.1.2).length - p.1.1.length = QRRef.ecPerBlock v ec := by
+      rw [hpar]; simp [QRRef.rsParity_length]
+    rw [hlen, hpar]
+    exact rsQR_clean _ hecm p.1.1 hne hbytes
+  · unfold parse
+    obtain ⟨tail, hbits, hterm⟩ := terminate_stream (QRRef.dataCodewords v ec) bits hfit
+    rw [← hdata, hbits]
+    exact hparse tail hterm
+
+/-- payload length of a single-segment symbol -/
+theorem payload_length (v : Nat) (hdr : List Bool) (m : QRRef.Mode) (count : Nat) (data : List Bool) :
+    (QRRef.payloadBits v hdr m count data).length = hdr.length + QRRef.countBits m v + data.length := by
+  unfold QRRef.payloadBits
+  simp [QRRef.toBitsBE_length]
+  omega
+
+theorem flatMap_pair_length (ps : List (Nat × Nat)) : (ps.flatMap (fun p => [p.1, p.2])).length = 2 * ps.length := by
+  induction ps with
+  | nil => rfl
+  | cons p ps ih => rw [List.flatMap_cons, List.length_append, ih]; simp; omega
+
+theorem payload_segment (v : Nat) (m : QRRef.Mode) (k : Nat) (hk : QRRef.countBits m v = countWidth k v)
+    (count : Nat) (data : List Bool) :
+    QRRef.payloadBits v (QRRef.headerBits none false m) m count data =
+      segment m.indicator (countWidth k v) count data := by
+  unfold QRRef.payloadBits QRRef.headerBits segment
+  simp only [Bool.false_eq_true, if_false, List.nil_append, List.append_nil, toBitsBE_eq_natToBits, hk]
+
+/-- **`qr_roundtrip`, numeric mode** (7.4.3): every string of digits that fits (version, level) comes back as
+    its ASCII bytes, with the level and version, for every version 1..40, level and mask. -/
+theorem qr_roundtrip_numeric (T : Tables) (hT : TablesConform T) (hint : Hint) (v : Nat) (h1 : 1 ≤ v) (h40 : v ≤ 40)
+    (ec : QRRef.EC) (mask : Nat) (hm : mask < 8) (ds : List Nat) (hd : ∀ d ∈ ds, d < 10)
+    (hfit : QRRef.fitsBits v ec .numeric (QRRef.headerBits none false .numeric).length
+      (QRRef.packNumeric ds).length = true) :
+    decode T rsQR hint (refSymbol v ec mask
+        (QRRef.payloadBits v (QRRef.headerBits none false .numeric) .numeric ds.length (QRRef.packNumeric ds))) =
+      .ok ⟨⟨[.raw (ds.map (48 + ·))], [], -1, -1, 1⟩, toDecEC ec, v,
+        QRRef.dataCodewordsOf v ec (QRRef.headerBits none false .numeric) .numeric ds.length (QRRef.packNumeric ds),
+        false⟩ := by
+  have hk := (countBits_eq v).1
+  have hf : _ ≤ _ := of_decide_eq_true hfit
+  have hcount : ds.length < 2 ^ QRRef.countBits .numeric v := by
+    have hc := (cap_facts v h1 h40 ec).1
+    rw [packNumeric_length] at hf
+    generalize 2 ^ QRRef.countBits .numeric v = P at hc ⊢
+    split at hf
+    · omega
+    · split at hf <;> omega
+  apply qr_roundtrip_bits T hT hint v h1 h40 ec mask hm
+  · rw [payload_length]; exact hf
+  · intro tail ht
+    rw [payload_segment v .numeric 0 hk, packNumeric_eq]
+    exact parse_numeric_stream T.eci v hint ds hd (by rw [← hk]; exact hcount) tail ht
+
+/-- **`qr_roundtrip`, alphanumeric mode** (7.4.4): character values 0..44 come back as the characters of Table 5 -/
+theorem qr_roundtrip_alnum (T : Tables) (hT : TablesConform T) (hint : Hint) (v : Nat) (h1 : 1 ≤ v) (h40 : v ≤ 40)
+    (ec : QRRef.EC) (mask : Nat) (hm : mask < 8) (cs : List Nat) (hc : ∀ c ∈ cs, c < 45)
+    (hfit : QRRef.fitsBits v ec .alnum (QRRef.headerBits none false .alnum).length
+      (QRRef.packAlnum cs).length = true) :
+    decode T rsQR hint (refSymbol v ec mask
+        (QRRef.payloadBits v (QRRef.headerBits none false .alnum) .alnum cs.length (QRRef.packAlnum cs))) =
+      .ok ⟨⟨[.raw (cs.map alnumCharOf)], [], -1, -1, 1⟩, toDecEC ec, v,
+        QRRef.dataCodewordsOf v ec (QRRef.headerBits none false .alnum) .alnum cs.length (QRRef.packAlnum cs),
+        false⟩ := by
+  have hk := (countBits_eq v).2.1
+  have hf : _ ≤ _ := of_decide_eq_true hfit
+  have hcount : cs.length < 2 ^ QRRef.countBits .alnum v := by
+    have hc := (cap_facts v h1 h40 ec).2.1
+    rw [packAlnum_length] at hf
+    generalize 2 ^ QRRef.countBits .alnum v = P at hc ⊢
+    omega
+  apply qr_roundtrip_bits T hT hint v h1 h40 ec mask hm
+  · rw [payload_length]; exact hf
+  · intro tail ht
+    rw [payload_segment v .alnum 1 hk, packAlnum_eq]
+    exact parse_alnum_stream T.eci v hint cs hc (by rw [← hk]; exact hcount) tail ht
+
+/-- **`qr_roundtrip`, byte mode without ECI header** (7.4.5): the bytes come back unchanged, labelled with the
+    character set `guessCharset` picks for them (hint honoured, UTF-8 detected: C15) -/
+theorem qr_roundtrip_byte (T : Tables) (hT : TablesConform T) (hint : Hint) (v : Nat) (h1 : 1 ≤ v) (h40 : v ≤ 40)
+    (ec : QRRef.EC) (mask : Nat) (hm : mask < 8) (bs : List Nat) (hb : ∀ b ∈ bs, b < 256)
+    (charset : Charset) (hcs : guessCharset T.eci bs hint = .ok charset)
+    (hfit : QRRef.fitsBits v ec .byte (QRRef.headerBits none false .byte).length
+      (QRRef.bitsOfBytes bs).length = true) :
+    decode T rsQR hint (refSymbol v ec mask
+        (QRRef.payloadBits v (QRRef.headerBits none false .byte) .byte bs.length (QRRef.bitsOfBytes bs))) =
+      .ok ⟨⟨[.text charset bs], [bs], -1, -1, 1⟩, toDecEC ec, v,
+        QRRef.dataCodewordsOf v ec (QRRef.headerBits none false .byte) .byte bs.length (QRRef.bitsOfBytes bs),
+        false⟩ := by
+  have hk := (countBits_eq v).2.2.1
+  have hf : _ ≤ _ := of_decide_eq_true hfit
+  have hcount : bs.length < 2 ^ QRRef.countBits .byte v := by
+    have hc := (cap_facts v h1 h40 ec).2.2.1
+    rw [QRRef.bitsOfBytes_length] at hf
+    generalize 2 ^ QRRef.countBits .byte v = P at hc ⊢
+    omega
+  apply qr_roundtrip_bits T hT hint v h1 h40 ec mask hm
+  · rw [payload_length]; exact hf
+  · intro tail ht
+    rw [payload_segment v .byte 2 hk, bitsOfBytes_eq]
+    exact parse_byte_stream T.eci v hint bs hb (by rw [← hk]; exact hcount) charset hcs tail ht
+
+/-- **`qr_roundtrip`, Kanji mode** (7.4.6): Shift_JIS double-byte characters of the two Kanji ranges come back as
+    their byte pairs, labelled Shift_JIS -/
+theorem qr_roundtrip_kanji (T : Tables) (hT : TablesConform T) (hint : Hint) (v : Nat) (h1 : 1 ≤ v) (h40 : v ≤ 40)
+    (ec : QRRef.EC) (mask : Nat) (hm : mask < 8) (ps : List (Nat × Nat)) (hp : ∀ p ∈ ps, kanjiPairOK p)
+    (hfit : QRRef.fitsBits v ec .kanji (QRRef.headerBits none false .kanji).length
+      (QRPack.packKanji ps).length = true) :
+    QRRef.encodeData .kanji (ps.flatMap (fun p => [p.1, p.2])) = some (ps.length, QRPack.packKanji ps) ∧
+    decode T rsQR hint (refSymbol v ec mask
+        (QRRef.payloadBits v (QRRef.headerBits none false .kanji) .kanji ps.length (QRPack.packKanji ps))) =
+      .ok ⟨⟨[.text .sjis (ps.flatMap (fun p => [p.1, p.2]))], [], -1, -1, 1⟩, toDecEC ec, v,
+        QRRef.dataCodewordsOf v ec (QRRef.headerBits none false .kanji) .kanji ps.length (QRPack.packKanji ps),
+        false⟩ := by
+  have hk := (countBits_eq v).2.2.2
+  have hf : _ ≤ _ := of_decide_eq_true hfit
+  have hcount : ps.length < 2 ^ QRRef.countBits .kanji v := by
+    have hc := (cap_facts v h1 h40 ec).2.2.2
+    rw [packKanji_length] at hf
+    generalize 2 ^ QRRef.countBits .kanji v = P at hc ⊢
+    omega
+  constructor
+  · unfold QRRef.encodeData
+    simp only [QRComp.packKanji_eq ps hp, Option.map_some]
+    rw [flatMap_pair_length]; simp
+  · apply qr_roundtrip_bits T hT hint v h1 h40 ec mask hm
+    · rw [payload_length]; exact hf
+    · intro tail ht
+      rw [payload_segment v .kanji 3 hk]
+      exact parse_kanji_stream T.eci v hint ps hp (by rw [← hk]; exact hcount) tail ht
+
+/-! ### byte mode with an ECI header -/
+
+theorem eciDesignator_eq (val : Nat) :
+    QRRef.eciDesignator val = encodeECIValue (if val < 128 then 1 else if val < 16384 then 2 else 3) val := by
+  unfold QRRef.eciDesignator encodeECIValue
+  by_cases h1 : val < 128
+  · simp [h1, toBitsBE_eq_natToBits]
+  · by_cases h2 : val < 16384
+    · simp [h1, h2, toBitsBE_eq_natToBits]
+    · simp [h1, h2, toBitsBE_eq_natToBits]
+
+/-- ECI header (7.4.2) + byte segment + terminated tail: the bytes come back labelled with the registered
+    character set of the ECI assignment number, whatever `guessCharset` would have said -/
+theorem parse_byte_eci_stream (reg : Registry) (ver : Nat) (hint : Hint) (val : Nat) (hval : val < 900)
+    (e : Entry) (hl : lookupValue reg val = some e)
+    (bs : List Nat) (hb : ∀ b ∈ bs, b < 256) (hlen : bs.length < 2 ^ countWidth 2 ver)
+    (tail : List Bool) (ht : Terminated tail) :
+    parseStream reg (natToBits 4 7 ++ (QRRef.eciDesignator val ++
+      (segment 4 (countWidth 2 ver) bs.length (packBytes bs) ++ tail))) ver hint =
+      .ok ⟨[.text (.named e.name) bs], [bs], -1, -1, 2⟩ := by
+  unfold parseStream
+  rw [eciDesignator_eq]
+  obtain ⟨f, hf⟩ : ∃ f, (natToBits 4 7 ++ (encodeECIValue (if val < 128 then 1 else if val < 16384 then 2 else 3) val ++
+      (segment 4 (countWidth 2 ver) bs.length (packBytes bs) ++ tail))).length + 1 = f + 1 + 1 + 1 := by
+    generalize encodeECIValue _ val ++ _ = rest
+    refine ⟨(natToBits 4 7 ++ rest).length - 2, ?_⟩
+    rw [List.length_append, natToBits_length]
+    omega
+  rw [hf, Gzx.Properties.C15.parseLoop_eci reg ver hint (f + 1 + 1) {} _ val _ (by
+    by_cases h1 : val < 128
+    · simp [h1]
+    · by_cases h2 : val < 16384
+      · simp [h1, h2]
+      · simp [h1, h2]; omega), hl]
+  simp only [hval, if_true]
+  rw [bits_byte_inv_eci reg ver hint (f + 1) _ e rfl bs hb hlen tail, parseLoop_terminated reg ver hint f _ tail ht]
+  rfl
+
+/-- **`qr_roundtrip`, byte mode with ECI header**: for every ECI assignment number `val` the decoder's registry
+    knows (entry `e`), the symbol announcing `val` returns the bytes labelled with `e`'s character set
+    (symbology modifier 2) -/
+theorem qr_roundtrip_byte_eci (T : Tables) (hT : TablesConform T) (hint : Hint) (v : Nat) (h1 : 1 ≤ v) (h40 : v ≤ 40)
+    (ec : QRRef.EC) (mask : Nat) (hm : mask < 8) (val : Nat) (hval : val < 900) (e : Entry)
+    (hl : lookupValue T.eci val = some e) (bs : List Nat) (hb : ∀ b ∈ bs, b < 256)
+    (hfit : QRRef.fitsBits v ec .byte (QRRef.headerBits (some val) false .byte).length
+      (QRRef.bitsOfBytes bs).length = true) :
+    decode T rsQR hint (refSymbol v ec mask
+        (QRRef.payloadBits v (QRRef.headerBits (some val) false .byte) .byte bs.length (QRRef.bitsOfBytes bs))) =
+      .ok ⟨⟨[.text (.named e.name) bs], [bs], -1, -1, 2⟩, toDecEC ec, v,
+        QRRef.dataCodewordsOf v ec (QRRef.headerBits (some val) false .byte) .byte bs.length (QRRef.bitsOfBytes bs),
+        false⟩ := by
+  have hk := (countBits_eq v).2.2.1
+  have hf : _ ≤ _ := of_decide_eq_true hfit
+  have hcount : bs.length < 2 ^ QRRef.countBits .byte v := by
+    have hc := (cap_facts v h1 h40 ec).2.2.1
+    rw [QRRef.bitsOfBytes_length] at hf
+    generalize 2 ^ QRRef.countBits .byte v = P at hc ⊢
+    omega
+  apply qr_roundtrip_bits T hT hint v h1 h40 ec mask hm
+  · rw [payload_length]; exact hf
+  · intro tail ht
+    have : QRRef.payloadBits v (QRRef.headerBits (some val) false .byte) .byte bs.length (QRRef.bitsOfBytes bs) ++ tail =
+        natToBits 4 7 ++ (QRRef.eciDesignator val ++
+          (segment 4 (countWidth 2 v) bs.length (packBytes bs) ++ tail)) := by
+      unfold QRRef.payloadBits QRRef.headerBits segment
+      simp only [Bool.false_eq_true, if_false, List.append_nil, List.append_assoc, toBitsBE_eq_natToBits, hk,
+        bitsOfBytes_eq]
+      rfl
+    rw [this]
+    exact parse_byte_eci_stream T.eci v hint val hval e hl bs hb (by rw [← hk]; exact hcount) tail ht
+
+/-! ### non-vacuity of the composed theorems -/
+
+/-- the table hypothesis is satisfiable: the standard's tables as a `Tables` value
+    (and the regenerated tables: `Obligations.C01.tables_conform`) -/
+example : TablesConform refTables := refTables_conform
+
+/-- ISO/IEC 18004 Annex I: "01234567", version 1-M — the data codewords of the reference construction are those
+    of the standard's worked example … -/
+example : QRRef.dataCodewordsOf 1 .M (QRRef.headerBits none false .numeric) .numeric 8
+    (QRRef.packNumeric [0, 1, 2, 3, 4, 5, 6, 7]) =
+    [0x10, 0x20, 0x0C, 0x56, 0x61, 0x80, 0xEC, 0x11, 0xEC, 0x11, 0xEC, 0x11, 0xEC, 0x11, 0xEC, 0x11] := by decide
+
+/-- … and the symbol (mask 011) decodes to the digits: a concrete instance of every hypothesis of
+    `qr_roundtrip_numeric` (evaluated by the kernel end to end in Proofs/QRCompExamples.lean) -/
+example : decode refTables rsQR .none (refSymbol 1 .M 3
+      (QRRef.payloadBits 1 (QRRef.headerBits none false .numeric) .numeric 8 (QRRef.packNumeric [0, 1, 2, 3, 4, 5, 6, 7]))) =
+    .ok ⟨⟨[.raw ([0, 1, 2, 3, 4, 5, 6, 7].map (48 + ·))], [], -1, -1, 1⟩, .M, 1,
+      QRRef.dataCodewordsOf 1 .M (QRRef.headerBits none false .numeric) .numeric 8
+        (QRRef.packNumeric [0, 1, 2, 3, 4, 5, 6, 7]), false⟩ :=
+  qr_roundtrip_numeric refTables refTables_conform .none 1 (by decide) (by decide) .M 3 (by decide)
+    [0, 1, 2, 3, 4, 5, 6, 7] (by decide) (by decide)
+
+/-- a version 7 symbol (45x45, carries both copies of the version information; 2 + 4 blocks at level Q),
+    alphanumeric "HR:", mask 101 -/
+example : decode refTables rsQR .none (refSymbol 7 .Q 5
+      (QRRef.payloadBits 7 (QRRef.headerBits none false .alnum) .alnum 3 (QRRef.packAlnum [17, 27, 44]))) =
+    .ok ⟨⟨[.raw ([17, 27, 44].map alnumCharOf)], [], -1, -1, 1⟩, .Q, 7,
+      QRRef.dataCodewordsOf 7 .Q (QRRef.headerBits none false .alnum) .alnum 3 (QRRef.packAlnum [17, 27, 44]), false⟩ :=
+  qr_roundtrip_alnum refTables refTables_conform .none 7 (by decide) (by decide) .Q 5 (by decide)
+    [17, 27, 44] (by decide) (by decide)
+
+example : ([17, 27, 44].map alnumCharOf, QRRef.blockGroups 7 .Q, QRRef.versionWord 7) =
+    ([72, 82, 58], [(2, 14), (4, 15)], 0x07C94) := by decide
+
+/-- version 40-L, byte mode, 2953 bytes (the published capacity): fits, hence round-trips -/
+example : QRRef.fitsBits 40 .L .byte (QRRef.headerBits none false .byte).length (8 * 2953) = true ∧
+    QRRef.fitsBits 40 .L .byte (QRRef.headerBits none false .byte).length (8 * 2954) = false := by decide
 
 end Gzx.Properties.C01
